@@ -38,6 +38,7 @@ type Query {
   ghost: String
   countdown(n: Int): String
   search(opts: Opts): String
+  searchIn(opts: Opts): String
   account: Account
   member: Node
   accountVal: Account
@@ -317,6 +318,22 @@ func (q *Query) Search(opts map[string]interface{}) string {
 	return b.String()
 }
 
+// OptsIn is a Go struct for the input type Opts that is NOT registered for it: Opts values stay maps.
+type OptsIn struct {
+	Text string
+	Tags []string
+}
+
+// SearchIn wants the (unregistered) input object Opts as a struct. ggql hands input objects of an unregistered type over
+// as maps, so this call is refused - every time, whatever else the root has resolved before.
+func (q *Query) SearchIn(opts *OptsIn) string {
+	called("Query.SearchIn")
+	if opts == nil {
+		return "no opts"
+	}
+	return fmt.Sprintf("%s%v", opts.Text, opts.Tags)
+}
+
 func renderSorted(v interface{}) string {
 	switch t := v.(type) {
 	case map[string]interface{}:
@@ -510,6 +527,8 @@ var Requests = []struct {
 	{`{ search(opts: {text: "x", page: {size: 3}}) s2: search(opts: {any: [{}]}) }`, nil},
 	{`query($o: Opts = {text: "d"}) { search(opts: $o) }`, nil},
 	{`query($o: Opts) { search(opts: $o) }`, map[string]interface{}{"o": map[string]interface{}{"tags": []interface{}{"v"}}}},
+	{`{ searchIn(opts: {text: "q", tags: ["x"]}) }`, nil},
+	{`{ s2: search(opts: {text: "after searchIn"}) }`, nil},
 	{`{ countdown(n: 3) name }`, nil},
 	{`{ motto name self { motto } }`, nil},
 	{`{ ofKind(kind: LARGE) { id kind } small: ofKind(kinds: [SMALL]) { id } }`, nil},
